@@ -1,6 +1,7 @@
 import Fundraising.Proofs.VestingLemmas
 import Fundraising.Proofs.ProgressProofs
 import Fundraising.Proofs.WFProofs
+import Fundraising.Proofs.LivenessProofs
 /-
   C09 — Vesting pays the auctioneer exactly the proceeds, on schedule, exactly once.
 -/
@@ -77,6 +78,15 @@ theorem C09_released_when_due_once (st : State) (h : Reach st) (t : Int)
     · exact (validSchedules_spec _ _ hne hw.auction.sched).2.2
   obtain ⟨h1, h2, _, _⟩ := block_releases st t hok i v v' hv hv' hs hsorted
   exact ⟨h1, h2⟩
+
+/-- a block that skips all remaining release times pays every outstanding instalment in that
+    one block and finishes the auction -/
+theorem C09_all_paid_by_last_release (st : State) (h : Reach st) (i : Nat) (v : AView)
+    (hv : st.core.views[i]? = some v) (hs : v.a.status = .vesting) (t : Int)
+    (hok : (step st (.block t)).1.res = .ok) (ht : ∀ q ∈ v.vqs, q.release ≤ t) :
+    ∃ v', (step st (.block t)).2.core.views[i]? = some v' ∧ v'.a.status = .finished ∧
+      ∀ q ∈ v'.vqs, q.released = true :=
+  finishes_at_last_release st h i v hv hs t hok ht
 
 /-! non-vacuity: three instalments with weights 1/3, 1/3, 1/3+1e-18 of proceeds 2 (smaller than
     the number of instalments): 0, 0, 2 -/
